@@ -184,8 +184,8 @@ type upFault struct {
 }
 
 func (f upFault) String() string {
-	if f.Kind == "none" {
-		return "none"
+	if f.Kind == "none" || f.Kind == "poststall" {
+		return f.Kind
 	}
 	return f.Kind + "@" + f.Step
 }
@@ -411,6 +411,30 @@ func (p *upProxy) handle(c net.Conn) {
 	relay(c, s, "c2s")
 }
 
+// upPostHold keeps the client's first long-polling POST back for `hold` (hook-free: ClientConfig.HTTPTransport).
+// Scenario "poststall": a Send is in flight (it holds the socket's read lock) when the probe pong arrives and
+// stays in flight longer than the client's UpgradeTimeout: the swap must simply wait for it.
+type upPostHold struct {
+	base http.RoundTripper
+	hold time.Duration
+	used atomic.Bool
+}
+
+// nil interface (default transport) unless a hold is wanted
+func upRoundTripper(h *upPostHold) http.RoundTripper {
+	if h == nil {
+		return nil
+	}
+	return h
+}
+
+func (h *upPostHold) RoundTrip(req *http.Request) (*http.Response, error) {
+	if req.Method == "POST" && !h.used.Swap(true) {
+		time.Sleep(h.hold)
+	}
+	return h.base.RoundTrip(req)
+}
+
 // ---------------------------------------------------------------------------- live rig
 
 type upRow struct {
@@ -508,7 +532,13 @@ func (rig *upRig) runConn(pr upParams) upRow {
 	}
 	row := upRow{Kind: kind, Fault: pr.fault.String(), Idx: pr.idx}
 	delay := time.Duration(1+r.Intn(pr.dialDelayMs)) * time.Millisecond
-	px, err := newUpProxy(rig.addr, pr.fault, delay)
+	pxFault := pr.fault
+	var postHold *upPostHold
+	if pr.fault.Kind == "poststall" {
+		pxFault = upFault{"none", ""}
+		postHold = &upPostHold{base: http.DefaultTransport.(*http.Transport).Clone(), hold: pr.clientTmo + 400*time.Millisecond}
+	}
+	px, err := newUpProxy(rig.addr, pxFault, delay)
 	if err != nil {
 		row.Env = "proxy: " + err.Error()
 		return row
@@ -532,6 +562,7 @@ func (rig *upRig) runConn(pr upParams) upRow {
 			cside.closed.Store(true)
 		},
 	}, &eio.ClientConfig{
+		HTTPTransport:        upRoundTripper(postHold),
 		Transports:           []string{"polling", "websocket"},
 		UpgradeTimeout:       pr.clientTmo,
 		UpgradeDone:          func(name string) { upOnce.Do(func() { close(upDone) }) },
@@ -655,6 +686,9 @@ func (rig *upRig) runConn(pr upParams) upRow {
 		}
 		time.Sleep(time.Duration(pr.dialDelayMs)*time.Millisecond + wait + 400*time.Millisecond)
 		row.Engaged = px.engaged.Load()
+		if postHold != nil {
+			row.Engaged = postHold.used.Load()
+		}
 		// later messages
 		for i := 0; i < pr.late; i++ {
 			sside.send(ssock, r, 1)
@@ -747,7 +781,13 @@ func upgradeMain(args []string) error {
 		return upForcedMain(*sched, *settleMs, *par, out)
 	}
 
-	rig, err := newUpRig(1 * time.Second)
+	// fault mode: the server's upgrade time-out is well above the held POST of "poststall" (1 s), so only the
+	// client's time-out (0.6 s) can expire while the swap waits for that POST
+	srvTmo := 1 * time.Second
+	if *mode == "fault" {
+		srvTmo = 3 * time.Second
+	}
+	rig, err := newUpRig(srvTmo)
 	if err != nil {
 		return err
 	}
@@ -761,7 +801,7 @@ func upgradeMain(args []string) error {
 		}
 	} else {
 		for i := 0; i < *n; i++ {
-			for _, f := range upFaults {
+			for _, f := range append(append([]upFault{}, upFaults...), upFault{"poststall", ""}) {
 				jobs = append(jobs, upParams{fault: f, idx: len(jobs), seed: r.U64(), clientTmo: 600 * time.Millisecond,
 					maxStream: 10 + r.Intn(10), late: 6 + r.Intn(6), dialDelayMs: 1 + r.Intn(8)})
 			}
